@@ -52,13 +52,8 @@ REVIEWED_CALLEES = [
 ]
 # function-pointer slots called inside regions (resolved by address-taken sets in the repo): reason
 REVIEWED_INDIRECT = {
-    "RPC_process_related_viewgrams": "RPC_process_related_viewgrams_* only use the projectors' thread-safe entry points and their by-reference per-thread accumulators",
-    "call_back": "LM call-backs write only their by-reference per-thread arguments",
-}
-# idempotent stores of one constant to a shared flag: (function regex, variable name) -> reason
-IDEMPOTENT_STORES = {
-    ("actual_add_multiplication_with_approximate_sub_Hessian_without_penalty", "any_negatives"): "every thread stores the same constant true; read only after the region",
-    ("actual_accumulate_sub_Hessian_times_input_without_penalty", "any_negatives"): "every thread stores the same constant true; read only after the region",
+    "stir::distributable_computation": "RPC_process_related_viewgrams_* only use the projectors' thread-safe entry points and their by-reference per-thread accumulators",
+    "stir::LM_distributable_computation": "LM call-backs write only their by-reference per-thread arguments",
 }
 SYNC = ("critical", "atomic", "single", "master")
 
@@ -361,9 +356,11 @@ def analyse_scope(ctx, fn, scope, region, rule_prefix, label):
                             if re.search(pat, n.callee):
                                 ok, why = True, "reviewed: " + reason
                     else:
-                        nm = key(n.c[0], True) if n.c else "?"
-                        if nm in REVIEWED_INDIRECT:
-                            ok, why = True, "reviewed: " + REVIEWED_INDIRECT[nm]
+                        # a call through the enclosing function's own function-pointer parameter (the work item's call-back)
+                        fp = n.c[0].strip() if n.c else None
+                        is_fp_param = fp is not None and fp.k == "DeclRefExpr" and fp.get("dk") == "param"
+                        if is_fp_param and fn.qn in REVIEWED_INDIRECT:
+                            ok, why = True, "reviewed: " + REVIEWED_INDIRECT[fn.qn]
                 ctx.ob(rule_prefix + "d-shared-object-calls", fn.qn, "%s:%s(%s)" % (label, callee.split("::")[-1], what), ok, n.where(), why)
                 n_obl += 1
             else:
@@ -376,9 +373,22 @@ def analyse_scope(ctx, fn, scope, region, rule_prefix, label):
                     ok, why = True, "element selected by the work-sharing loop's own variable"
                 else:
                     ok, why = False, "unsynchronised write to shared %s" % what
-                    for (fpat, vname), reason in IDEMPOTENT_STORES.items():
-                        if fpat in fn.qn and key(e, True) == vname and n.k == "BinaryOperator" and n.op == "=" and n.c[1].strip().k == "CXXBoolLiteralExpr":
-                            ok, why = True, "exempt (idempotent): " + reason
+                    if n.k == "BinaryOperator" and n.op == "=" and n.c[1].strip().k == "CXXBoolLiteralExpr" and root.startswith("v") and key(e) == root:
+                        # a shared flag to which every thread stores the same constant and that nobody reads inside the region:
+                        # the stores are idempotent (whatever their order) and the value is only looked at after the region
+                        lit = n.c[1].strip().get("v")
+                        other_w = [m for m in scope.walk() if m is not n and root in {root_of_lvalue(x) for x in written_lvalues(m)} and not (m.k == "BinaryOperator" and m.op == "=" and m.c[1].strip().k == "CXXBoolLiteralExpr" and m.c[1].strip().get("v") == lit)]
+                        reads = [m for m in scope.walk() if m.k == "DeclRefExpr" and "v%d" % m.get("d") == root and not (m.parent is not None and m.parent.k == "BinaryOperator" and m.parent.op == "=" and m.parent.c[0] is m)]
+                        # the only tolerated reads: `if (flag) continue;` - a monotone flag used to skip remaining work early; a stale
+                        # value only means some more work is done before the error is raised after the region
+                        def skip_only(r):
+                            p_ = r.parent
+                            while p_ is not None and p_.k == "Cast":
+                                p_ = p_.parent
+                            return p_ is not None and p_.k == "IfStmt" and len(p_.c) == 2 and (p_.c[1].k in ("ContinueStmt", "BreakStmt") or (p_.c[1].k == "CompoundStmt" and len(p_.c[1].c) == 1 and p_.c[1].c[0].k in ("ContinueStmt", "BreakStmt")))
+
+                        if not other_w and all(skip_only(r) for r in reads):
+                            ok, why = True, "idempotent store: every thread stores the same constant %s to this flag; inside the region it is only read to skip remaining work (`if (flag) continue;`)" % ("true" if lit else "false")
                 ctx.ob(rule_prefix + "c-shared-writes", fn.qn, "%s:%s" % (label, what), ok, n.where(), why)
                 n_obl += 1
     return n_obl
@@ -432,7 +442,8 @@ def rule_f(ctx, fns):
     for f in fns:
         if not f.short.startswith("cached_") or f.body is None:
             continue
-        loc = [m for m in f.walk() if m.k == "VarDecl" and m.get("n") == "location_in_cache"]
+        # the cell pointer: the pointer local initialised with the address of an element of a `cached_...` member
+        loc = [m for m in f.walk() if m.k == "VarDecl" and m.c and (m.get("t") or "").rstrip().endswith("*") and any(x.k == "UnaryOperator" and x.op == "&" and "this.cached_" in key(x.c[0]) for x in m.c[0].walk())]
         if not loc:
             continue
         lv = "v%d" % loc[0].get("d")
